@@ -346,16 +346,10 @@ def run(ctx):
     classes = CLASSES_QUICK if quick else CLASSES_THOROUGH
     jobs = 8
 
-    # ---------------- translator (site list for the stack matching); the proof build re-runs it
+    # ---------------- proofs in the background: translator (which also writes the site list used for the
+    # stack matching, through C11_SITES_JSON) + coq; census and fault injection meanwhile
     sites_json = os.path.join(wd, 'sites.json')
-    rc, out = C.sh([sys.executable, os.path.join(C.VERIF, 'tools', 'tr_iosites.py'), lib,
-                    os.path.join(wd, 'Gen_iosites.v'), '--json', sites_json], timeout=600)
-    if rc != 0 or not os.path.exists(sites_json):
-        raise C.BuildFailure('translator tr_iosites failed:\n' + out[-2000:])
-    tj = json.load(open(sites_json))
-    idx = SiteIndex(tj['sites'])
-
-    # ---------------- proofs in the background (translator again + coq), fault injection meanwhile
+    os.environ['C11_SITES_JSON'] = sites_json
     box = {}
 
     def prover():
@@ -371,6 +365,15 @@ def run(ctx):
         census = list(ex.map(lambda cfg: run_harness(exe, wd, cfg, timeout=300), CONFIGS))
     # watchdog of the faulted runs: relative to what the unfaulted program needs on this machine now
     base_wall = {i: r.wall for i, r in enumerate(census)}
+    while not os.path.exists(sites_json):       # written by the translator run of the proof thread
+        if not th.is_alive():
+            break
+        time.sleep(0.5)
+    if not os.path.exists(sites_json):
+        th.join()
+        raise box.get('err') or C.BuildFailure('translator tr_iosites did not write the site list')
+    tj = json.load(open(sites_json))
+    idx = SiteIndex(tj['sites'])
     problems = ['translator: ' + x for x in tj.get('problems', [])]
     for r in census:
         if r.rc != 0 or not all(l['done'] for l in r.logs) or any(v[1] != 0 for l in r.logs for v in l['api'].values()):
@@ -399,11 +402,20 @@ def run(ctx):
     # ---------------- injection plan
     plan = []
     seen = set()
+    percap = {}
     for p in positions:
         rep = (CONFIGS[p['ci']][1], 'PNETCDF_SAFE_MODE' in CONFIGS[p['ci']][2], p['rank'] == 0,
                tuple(p['stack']), p['api'], p['bytes'] == 0)
         first = rep not in seen
         seen.add(rep)
+        if quick and first:
+            # quick: at most 3 call stacks per (I/O site, nprocs, safe mode, root/non-root, API); the other
+            # stacks of the same site (e.g. the header parser's many callers of hdr_fetch) keep their
+            # 1-rank representatives and are all covered by the thorough tier
+            grp = (p['stack'][0], rep[0], rep[1], rep[2], p['api'])
+            percap[grp] = percap.get(grp, 0) + 1
+            if percap[grp] > 3 and rep[0] > 1:
+                continue
         for c in classes:
             base = c in CLASSES_QUICK
             # quick: one position per distinct (nprocs, safe mode, root/non-root, call stack, API, zero-length)
@@ -645,14 +657,15 @@ def regen(lib=None):
     txt = open(pf).read()
     part1 = txt[:txt.index(PART2)]
     open(pf, 'w').write(part1 + PART2 + '\n')
-    for f in ('Fault.v', 'Gen_iosites.v', 'Proofs_Fault.v'):
+    for f in ('Fault.v', 'Gen_iosites.v'):       # (part 1 may not check before bad_link_ids is updated)
         rc, out = C.sh(['coqc', '-Q', '.', 'Pnc', '-w', '-all', f], cwd=C.COQ, timeout=1500)
         if rc != 0:
             raise SystemExit('coqc %s failed:\n%s' % (f, out[-3000:]))
     io = [s for s in tj['sites'] if s['io']]
     links = [s for s in tj['sites'] if not s['io']]
     # ---- ask the model
-    q = ['From Pnc Require Import Proofs_Fault.', 'Set Printing Width 1000000.',
+    q = ['From Coq Require Import ZArith String List Bool.', 'From Pnc Require Import Gen_consts Fault Gen_iosites.',
+         'Import ListNotations.', 'Open Scope string_scope.', 'Set Printing Width 1000000.',
          'Definition cls (s : site) := String.concat "," (map class_name (filter (fun c => negb (io_propagates s c)) all_classes)).',
          'Eval vm_compute in ("BAD " ++ String.concat "," (map s_id (filter (fun l => negb (link_propagates l)) link_sites))).']
     for i, s in enumerate(io):
